@@ -43,6 +43,13 @@ R3  6 (GuardOption members and the marker table compared completely with the ref
     the atom is brought to `count op bound` in polynomial normal form; the loop body is looked at once), 6 (bound folded
     over module constants incl. `len` of a constant table; number of values of a constant `range` by closed form),
     5 (required number = size of the GuardOption vocabulary).  Lemmas: [linear-bound], [range-closed-form], [count-bound].
+    Per-candidate values ("reported checksum / settings parsed anew for every candidate"): 1 (the `checksum` / `settings`
+    arguments of the GuardrailMetadata constructions through the class field list; bindings and in-place changes -
+    append / extend / subscript store / augmented assignment - of the locals they read), 2/3 (reaching definitions as CFG
+    reachability: no path from one construction to the next avoids every re-binding of a local that is assigned or
+    changed inside the scan cycle; `x += ..`, `x = x + ..`, `x.append(..)` carry the old value and are not re-bindings;
+    plain copies are followed to their source; a for target counts as re-bound at the loop header).  Locals that the
+    cycle never touches and parameters are the same for all candidates.
 R4  6 (patch-size constants, marker table, integer expressions folded over module constants incl. `len` of a constant
     table element), 1 (stream operations on the file parameter, constructor arguments), 2 (which seek/read can be the last
     stream operation before a read = reachability avoiding the other operations; marker-test edge dominates the report;
@@ -66,6 +73,13 @@ R5  1 (the variable bound to grouper's `n`, reads of the candidate stream, most_
     iterating it; a constant weight table compared completely with the arithmetic progression T[0]+j).
     Lemmas: [byte-mask], [progression-table], [mod-accumulate], [range-closed-form], [enumerate-index],
     assumption [default-buffer-size].
+    'Any environmental key' (TAINT obligations): 1 (the counter = receiver of most_common; its counting sites: update(..),
+    construction / sum of Counter(..), `counter[k] += ..`; the yields), 3 (the counted expression with single-definition
+    temporaries substituted; an element is tainted when the iterable of its comprehension generator / for loop / filter(..)
+    contains the grouper call or a tainted name), 2 (branch-edge atoms dominating the counting statement / the yield),
+    5 (the finite set of forms of a condition that does *not* read the bytes of an element E: `len(E)`, `isinstance(E, ..)`,
+    `E is None` / `None in E` / `E == b""`, the truthiness of E itself, `E in <local collection>`; every other mention of E in
+    a filter condition reads its content).  A predicate passed to filter(..) by name -> undecided.  Lemma [key-is-a-gram].
 R6  engine: effects.check_escape (1, 2, 4: escape analysis with interval facts, trusted base of C08) and
     loops.analyse_loop (2: every cycle of the loop passes a progress statement).  One length fact is added to the escape
     analysis (6): a module-level container constant that the function neither takes as parameter nor assigns has the length
@@ -120,6 +134,9 @@ Lemmas (each used as a rewrite on terms, never checked by trying values)
 [full-chunk]         stream.read(N) returns fewer than N bytes only at the end of the data; for every chunk that is followed by more
                      data len(chunk) == N, so expressions over len(chunk) are evaluated with that value (min / max / + / - folded).
 [default-buffer-size] io.DEFAULT_BUFFER_SIZE == 8192 (CPython constant; named assumption).
+[key-is-a-gram]      in the zero padding of the patch area the guarded data (config xor cycled key) is the cycled key itself, so the
+                     environmental key is one of the n-grams cut there for n == len(key); a condition on the bytes of an n-gram
+                     that decides whether it is counted / yielded therefore excludes every key that fails the condition.
 [append-is-concat]   for a list X: after `X.append(E)` X equals old X + [E]; after `X.extend(E)` / `X += E` it equals old X + [*E]
                      (bytes: X + E).  Only used for module-level statements; aliases are not followed (a second name for
                      the table is a different constant).
@@ -671,13 +688,15 @@ def run(ctx):
         "members and folded as a module-level constant) equals the serialisation of (option, type, "
         "length) from C_GUARDRAILS_DEF; nothing limits the settings parsed per guard configuration below one per GuardOption "
         "member (interval on the list length / counter tested between two parses); geometry of the scan (window, offsets, bulk reads as numbers / polynomials over the scan "
-        "variable) and the unmasking expressions as xor chains; key-length range and checksum formula as a polynomial; "
+        "variable) and the unmasking expressions as xor chains; key-length range and checksum formula as a polynomial; no filter condition or branch between grouper's n-grams and the counter / the yield reads the bytes of an n-gram "
+        "(any key is admissible); the checksum and the settings handed to a GuardrailMetadata are re-bound on every path from one construction to the next; "
         "escape set and loop termination of the scan.  When the marker windows are cut out of bulk-read chunks by a generator of the module: "
         "every window of an offset that is visited in one chunk only lies inside the bytes read for that chunk (look-ahead >= 2 * marker length - 1), and the "
         "positions tested per chunk cover the stride.  Raw or XorEncoded: the raw file object becomes the stream of the guardrails fallback in from_file only "
         "after a feasible attempt to open its XorEncodedFile view (CFG paths after flag propagation)."
     )
     rep.not_decided = ["that recovery succeeds for every key/option combination (n-gram statistics)", "checksum collisions",
+                       "n-grams that reach the counter through a predicate passed by name to filter(..) / a counting statement that cannot be located (undecided); per-candidate freshness of constructor arguments other than checksum / settings (offsets and blocks: R4)",
                        "limits on the number of parsed settings that are not a linear bound on a list length / counter (undecided when one lies between two parses)",
                        "exhaustiveness of a search whose constructed candidate is a result variable rather than the drawn name (undecided)",
                        "a chunked marker scan written inline (not as a generator helper), or whose chunk size / stride / positions are not constants: window obligations undecided; termination of a generator helper's loop",
@@ -696,6 +715,8 @@ def run(ctx):
         "lemma: a never-decreased count incremented after every parse is >= c0 + j after j parses; `count <= B` between two parses admits B - c0 + 1 parses",
         "semantics of next(IT, None) / filtering comprehension / filter(lambda): first element of IT satisfying the filter, None when exhausted",
         "assumption: io.DEFAULT_BUFFER_SIZE == 8192",
+        "lemma: inside the zero padding of the patch area the guarded data is the cycled environmental key, so the key is one of the n-grams; the listed forms (len, isinstance, None tests, truthiness, membership in a local collection) do not read an element's bytes",
+        "a local is carried from one report to the next unless re-bound on every CFG path between them (augmented assignment / self-referential assignment / in-place mutation are not re-bindings)",
         "lemma: a slice beyond the end of a bytes object is truncated, and read(N) is short only at the end of the data (chunk length == N whenever more data follows)",
         "flag propagation: a branch edge is infeasible when every definition of the tested name that reaches the test is a constant of the other truthiness; the exceptional edge of a try body leaves from before the raising statement",
         "constant folding of module-level tables (_ModEnv): CPython's struct.pack / int.to_bytes / bytes / join / range on constants of the analysed code; dissect.cstruct enum members behave as their integer value (IntEnum-like: .value, .name, E[name], E(value), iteration in definition order without aliases)",
@@ -1709,6 +1730,7 @@ def r3(ctx, mod, env):
     if not ctors or any(a is None or a.get("checksum") is None for a in args):
         ctx.undecided("R3", "AGREE", f, text, "the checksum argument of the GuardrailMetadata construction cannot be located")
         return
+    _r3_fresh(ctx, f, ctors, args)
     want_opt = go.get("GUARD_PAYLOAD_CHECKSUM")
     for a in args:
         leaves = _leaf_defs(f.node, a["checksum"])
@@ -1761,6 +1783,99 @@ def r3(ctx, mod, env):
             ok = bool(be4 and is_value and guards)
             ctx.ob("R3", "AGREE", f, text, ok, "the stored checksum is the 4-byte big-endian value of the GUARD_PAYLOAD_CHECKSUM setting" if ok else
                    f"`{src(e)}`: 4-byte big-endian={bool(be4)}, of a setting's value={is_value}, only for the GUARD_PAYLOAD_CHECKSUM option={bool(guards)}", st)
+
+
+def _r3_fresh(ctx, f, ctors, args):
+    """What is parsed out of one guard configuration - the stored checksum and the settings - is reported for that guard
+    configuration only.  Necessary condition (reaching definitions on the CFG, device 2/3): a local that the `checksum` /
+    `settings` argument of a GuardrailMetadata construction reads (directly or through plain copies) and that is assigned
+    or mutated inside the scan cycle is *re-bound on every path from one construction to the next*; otherwise the value
+    of the candidate reported before reaches this report (a candidate without a checksum setting is then validated
+    against a checksum that its own guard configuration does not store; settings pile up).
+
+    Re-binding = a plain / tuple / for / with binding whose value does not mention the name itself; `x += ..`,
+    `x = x + ..`, `x.append(..)`, `x[..] = ..` change the carried value and do not reset it.  A local that is neither bound
+    nor mutated in the cycle is the same for all candidates (nothing to reset); parameters likewise."""
+    cfg = ctx.cfg(f)
+    fv = FuncView.of(f.node)
+    reports = []
+    for c in ctors:
+        st = fv.stmt_of(c)
+        if st is None or not cfg.has(st):
+            ctx.undecided("R3", "DOM", f, "reported checksum parsed anew for every candidate", "the statement of the GuardrailMetadata construction is not in the CFG")
+            return
+        reports.append(cfg.node(st))
+    pars = set(params(f.node))
+
+    def bindings(name):
+        """(reset nodes, changing nodes) of a local"""
+        resets, changes = [], []
+        for d, v in assignments_to(f.node, name):
+            d = d if isinstance(d, ast.stmt) else fv.stmt_of(d)
+            if d is None or not cfg.has(d):
+                continue
+            whole = d.value if isinstance(d, (ast.Assign, ast.AnnAssign)) and d.value is not None else None
+            carried = isinstance(d, ast.AugAssign) or (whole is not None and any(isinstance(x, ast.Name) and x.id == name for x in ast.walk(whole)))
+            (changes if carried else resets).append(cfg.node(d))
+        for st in statements(f.node):
+            if not cfg.has(st):
+                continue
+            heads = [st.value] if isinstance(st, ast.Expr) else []
+            for n2 in heads:
+                if isinstance(n2, ast.Call) and isinstance(n2.func, ast.Attribute) and n2.func.attr in _MUTATORS and isinstance(n2.func.value, ast.Name) and n2.func.value.id == name:
+                    changes.append(cfg.node(st))
+            tg = st.targets if isinstance(st, ast.Assign) else [st.target] if isinstance(st, (ast.AugAssign, ast.AnnAssign)) else st.targets if isinstance(st, ast.Delete) else []
+            for t in tg:
+                for x in ast.walk(t):
+                    if isinstance(x, ast.Subscript) and isinstance(x.value, ast.Name) and x.value.id == name and isinstance(x.ctx, (ast.Store, ast.Del)):
+                        changes.append(cfg.node(st))
+        return resets, changes
+
+    def stale(name, at, seen):
+        """None, or (name, witness) when the value of local `name` read at CFG node `at` can be the one a previous report saw"""
+        if name in pars or name in seen:
+            return None
+        seen = seen | {name}
+        resets, changes = bindings(name)
+        if not resets and not changes:
+            return None  # not a local of this function (module constant, builtin)
+        in_cycle = [n for n in resets + changes if any(cfg.reaches(r, n) for r in reports)]
+        if not in_cycle:
+            return None  # bound before the scan starts and never touched in it: the same for every candidate
+        for r in reports:
+            if cfg.reaches(r, at, avoiding=resets):
+                return name, " -> ".join(cfg.witness_path(r, at, avoiding=resets)[:8])
+        # fresh here; plain copies are followed to their source
+        for d, v in assignments_to(f.node, name):
+            v = strip_cast(v) if v is not None else None
+            if isinstance(v, ast.Name) and isinstance(d, ast.stmt) and cfg.has(d):
+                hit = stale(v.id, cfg.node(d), seen)
+                if hit:
+                    return hit
+        return None
+
+    for field in ("checksum", "settings"):
+        text = f"reported {field} parsed anew for every candidate"
+        for c, a, rn in zip(ctors, args, reports):
+            e = a.get(field) if a else None
+            if e is None:
+                continue
+            names = sorted({x.id for x in ast.walk(e) if isinstance(x, ast.Name) and isinstance(x.ctx, ast.Load)})
+            hit = None
+            checked = []
+            for nm in names:
+                rs, ch = bindings(nm)
+                if nm in pars or not (rs or ch):
+                    continue
+                checked.append(nm)
+                hit = hit or stale(nm, rn, frozenset())
+            if not checked:
+                continue
+            if hit:
+                ctx.ob("R3", "DOM", f, text, False, f"`{hit[0]}` is assigned or changed while a guard configuration is parsed but is not re-bound on every path from one GuardrailMetadata "
+                       f"construction to the next ({hit[1]}): the {field} of the candidate reported before is reported again for a candidate whose own guard configuration does not set it", c)
+            else:
+                ctx.ob("R3", "DOM", f, text, True, f"{checked} are re-bound on every path from one GuardrailMetadata construction to the next (or never touched during the scan)", c)
 
 
 def _r3_settings_bound(ctx, f, mod, env):
@@ -2446,7 +2561,147 @@ def r5(ctx):
             ctx.undecided("R5", "AGREE", f, "most_common(2)", f"`{src(c)}`: the number of ranked n-grams is not a constant", c)
         else:
             ctx.ob("R5", "AGREE", f, "most_common(2)", ok, f"the {k if a is not None else 'all'} most common n-grams are ranked (at least the two most common must be candidates)", c)
+    _r5_any_bytes(ctx, f, gr, mc)
     _r5_checksum(ctx, menv)
+
+
+_FILTERS = ("filter", "filterfalse", "takewhile", "dropwhile")
+
+
+def _content_uses(node, is_elem, root=True):
+    """Does the truth value of condition `node` depend on the *bytes* of an element (is_elem(sub-expression))?  Not a use of
+    the content: the element's length (`len(E)`), type (`isinstance(E, ..)`), identity / membership tests with None
+    (`E is None`, `None in E`: an element of a bytes object is never None), comparison with the empty string, the
+    truthiness of the element itself (`E`, `not E`: non-empty for every n >= 1), and membership of the element in a
+    local collection (`E in seen`: a relation to the elements met before, not to its bytes)."""
+    if is_elem(node):
+        return not root
+    if isinstance(node, ast.UnaryOp) and isinstance(node.op, ast.Not):
+        return _content_uses(node.operand, is_elem, root)
+    if isinstance(node, ast.BoolOp):
+        return any(_content_uses(v, is_elem, root) for v in node.values)
+    if isinstance(node, ast.Call) and dotted(node.func) in ("len", "isinstance", "type"):
+        return False
+    if isinstance(node, ast.Compare) and len(node.ops) == 1:
+        l, r = node.left, node.comparators[0]
+        for x, y in ((l, r), (r, l)):
+            if isinstance(y, ast.Constant) and (y.value is None or y.value == b"" or y.value == () or y.value == "") and is_elem(x):
+                return False
+        if isinstance(node.ops[0], (ast.In, ast.NotIn)) and is_elem(l) and isinstance(r, ast.Name):
+            return False
+    return any(_content_uses(ch, is_elem, False) for ch in ast.iter_child_nodes(node))
+
+
+def _r5_any_bytes(ctx, f, gr, mc):
+    """'any environmental key': inside the zero padding of the patch area the guarded data *is* the repeating key, so the key
+    itself is an n-gram there - whatever bytes it holds.  Necessary condition (taint, device 1/2/3): whether an n-gram that
+    grouper cut out is counted, and whether a ranked n-gram is yielded as candidate, does not depend on the bytes of that
+    n-gram: no filter condition of a comprehension / filter(..) between grouper's result and the counter, and no branch atom
+    on an edge dominating the counting statement / the yield, reads the content of the n-gram (length, type, None-ness,
+    truthiness and the count are not content).  A condition on the bytes excludes the keys that do not satisfy it."""
+    T_C, T_Y = "every n-gram is counted whatever bytes it holds", "a ranked n-gram is a candidate whatever bytes it holds"
+    fv = FuncView.of(f.node)
+    cfg = ctx.cfg(f)
+    if len(gr) != 1 or not mc:
+        return  # the anchors are reported as undecided by the obligations above
+
+    def has_grams(e, tainted=()):
+        return any((isinstance(x, ast.Call) and _fq(ctx, f, x) == "utils.grouper") or (isinstance(x, ast.Name) and x.id in tainted) for x in ast.walk(e))
+
+    def names_of(t):
+        return {x.id for x in ast.walk(t) if isinstance(x, ast.Name)}
+
+    found = []      # (condition text) content filters
+    opaque = []     # predicates the rule cannot read
+    located = 0
+
+    def scan_expr(e):
+        """filters inside an (inlined) expression that the n-grams flow through"""
+        nonlocal located
+        for x in ast.walk(e):
+            if isinstance(x, (ast.ListComp, ast.SetComp, ast.GeneratorExp, ast.DictComp)):
+                tainted = set()
+                for g in x.generators:
+                    if has_grams(g.iter, tainted):
+                        tainted |= names_of(g.target)
+                    for c in g.ifs:
+                        if tainted and _content_uses(c, lambda n: isinstance(n, ast.Name) and n.id in tainted):
+                            found.append(src(c))
+            elif isinstance(x, ast.Call) and (dotted(x.func) or "").split(".")[-1] in _FILTERS and len(x.args) == 2 and has_grams(x.args[1]):
+                pr = x.args[0]
+                if isinstance(pr, ast.Constant) and pr.value is None:
+                    continue  # filter(None, ..): truthiness of the element
+                if isinstance(pr, ast.Lambda) and len(pr.args.args) == 1:
+                    an = pr.args.args[0].arg
+                    if _content_uses(pr.body, lambda n: isinstance(n, ast.Name) and n.id == an):
+                        found.append(src(x)[:80])
+                else:
+                    opaque.append(src(x)[:80])
+
+    def scan_edges(st, elem_names):
+        for _e, a in _holds_at(ctx, f, st, lambda a: True):
+            if _content_uses(a, lambda n: isinstance(n, ast.Name) and n.id in elem_names):
+                found.append(src(a))
+
+    # ---- the counter: receiver of most_common; its counting sites
+    counters, inline_counts = set(), []
+    for c in mc:
+        r = c.func.value
+        if isinstance(r, ast.Name):
+            counters.add(r.id)
+        else:
+            inline_counts.append((fv.stmt_of(c), r))
+    sites = list(inline_counts)  # (statement, expression the counted keys come from)
+    for st in statements(f.node):
+        if isinstance(st, ast.Expr) and isinstance(st.value, ast.Call) and isinstance(st.value.func, ast.Attribute) and st.value.func.attr == "update" \
+                and isinstance(st.value.func.value, ast.Name) and st.value.func.value.id in counters and st.value.args:
+            sites.append((st, st.value.args[0]))
+        elif isinstance(st, ast.AugAssign) and isinstance(st.target, ast.Subscript) and isinstance(st.target.value, ast.Name) and st.target.value.id in counters:
+            sites.append((st, st.target.slice))
+        elif isinstance(st, (ast.Assign, ast.AnnAssign, ast.AugAssign)) and st.value is not None \
+                and any(isinstance(t, ast.Name) and t.id in counters for t in (st.targets if isinstance(st, ast.Assign) else [st.target])):
+            # the counter (re)bound to / grown by a construction from the n-grams: Counter(<grams>), counter + Counter(<grams>)
+            sites.extend((st, x.args[0]) for x in ast.walk(st.value) if isinstance(x, ast.Call) and x.args and not isinstance(x.args[0], ast.Starred))
+    for st, e in sites:
+        if st is None or not cfg.has(st):
+            continue
+        ei = _inl(f, e)
+        if has_grams(ei):
+            located += 1
+            scan_expr(ei)
+        # counted inside explicit loops over the n-grams: the loop targets are elements
+        elem = set()
+        for lp in fv.ancestors(st):
+            if isinstance(lp, ast.For) and has_grams(_inl(f, lp.iter)):
+                elem |= names_of(lp.target)
+                scan_expr(_inl(f, lp.iter))
+        if elem and (names_of(ei) & elem):
+            located += 1
+        if has_grams(ei) or elem:
+            scan_edges(st, elem)
+    if not located:
+        ctx.undecided("R5", "TAINT", f, T_C, "the statement that counts the n-grams cut by grouper (update / construction / increment of the counter that is ranked) cannot be located")
+    elif found:
+        ctx.ob("R5", "TAINT", f, T_C, False, f"whether an n-gram is counted depends on its bytes (`{found[0]}`): inside the zero padding of the patch area the guarded data is the repeating key, so a key that fails "
+               "this condition is never counted and never becomes a candidate - the property holds for ANY environmental key", gr[0])
+    elif opaque:
+        ctx.undecided("R5", "TAINT", f, T_C, f"the n-grams pass `{opaque[0]}`, a predicate the rule cannot read", gr[0])
+    else:
+        ctx.ob("R5", "TAINT", f, T_C, True, "no filter condition between grouper's result and the counter reads the bytes of an n-gram", gr[0])
+    # ---- the yield of the ranked n-grams
+    ys = [n for n in ast.walk(f.node) if isinstance(n, ast.Yield) and n.value is not None and fv.stmt_of(n) is not None and cfg.has(fv.stmt_of(n))]
+    if not ys:
+        ctx.undecided("R5", "TAINT", f, T_Y, "no yield of a candidate found")
+        return
+    found = []
+    for y in ys:
+        yv = src(_inl(f, y.value))
+        loc = {x.id for x in ast.walk(y.value) if isinstance(x, ast.Name) and x.id not in params(f.node)}
+        for _e, a in _holds_at(ctx, f, fv.stmt_of(y), lambda a: True):
+            if _content_uses(a, lambda n: src(n) == yv or (isinstance(n, ast.Name) and n.id in loc)):
+                found.append(src(a))
+    ctx.ob("R5", "TAINT", f, T_Y, not found, (f"the yield of a ranked n-gram is guarded by `{found[0]}`, a condition on its bytes: a key that fails it is never tried" if found else
+           "no condition dominating the yield reads the bytes of the ranked n-gram (only its count)"), ys[0])
 
 
 def _r5_checksum(ctx, menv):
